@@ -25,7 +25,7 @@ def gen_case(rnd, tier: str, i: Any, **over: Any) -> Dict[str, Any]:
         files[f"rank{r}.json"] = tr
         truths[str(r)] = truth
     return {"files": files, "truth": truths, "rank": rnd.randrange(n_ranks), "zero_weight": rnd.random() < 0.4,
-            "win_seed": rnd.randrange(10 ** 9), "inc_last": False, "time_unit": rnd.choice([1, 1, 1, 1, 0.125, 0.375]),
+            "win_seed": rnd.randrange(10 ** 9), "inc_last": rnd.random() < 0.3, "time_unit": rnd.choice([1, 1, 1, 1, 0.125, 0.375]),
             # history: the trace's symbol ids decoded into s_name / s_cat columns (full names) before the analysis, as the
             # CUPTI counter analysis and notebooks do
             "pre_decode": rnd.random() < 0.3}
@@ -90,9 +90,11 @@ def prepare(case: Dict[str, Any], ctx: Any, res: core.CaseResult, need_causal: b
         case = dict(case, post_edits=None)
     d = ctx.scratch.new("cp")
     core.write_trace_files(d, case["files"])
-    ok, ta = drv.guard(res, "TraceAnalysis(load)", drv.new_analysis, d)
+    ok, ta = drv.guard(res, "TraceAnalysis(load)", drv.new_analysis, d, **({"include_last_profiler_step": True} if case.get("inc_last") else {}))
     if not ok:
         return None
+    if case.get("inc_last"):
+        res.counters["loads_including_last_step"] += 1
     if case.get("pre_decode"):
         drv.guard(core.CaseResult(), "decode_symbol_ids", ta.t.decode_symbol_ids, False)
         res.counters["analyses_after_decode_symbol_ids"] += 1
